@@ -10,7 +10,8 @@
      * remove_edge(s)      = drops the named marks (never changes anything else)
      * orient_uncertain_edge = the generated function of the class on the one pair
      * constructor         = the four (two) edge lists taken as they are, rejected unless is_valid_mec_graph accepts
-   Nodes are contemporaneous for the time-series classes (lagswap = false).  No proofs in this file. *)
+   Time-series classes: Orient is the call on contemporaneous nodes or with u earlier than v (lagswap = false),
+   OrientLag the call with u later than v (lagswap = true).  No proofs in this file. *)
 From Coq Require Import List Arith Bool.
 From PG Require Import Base.ListSet Base.Sx C03.PState Gen.Gen_Guards Gen.Gen_Orient.
 Import ListNotations.
@@ -46,6 +47,14 @@ Definition orient_of (c : cls) : pstate -> dir -> outcome :=
   match c with
   | CPag | CAugPag => orient_pag false | CCpdag => orient_cpdag false
   | CTsPag => orient_tspag false | CTsCpdag => orient_tscpdag false
+  end.
+
+(* the same call on a LAGGED pair of a time-series graph with u later than v (the generated `sorted by lag` exchanges the
+   two nodes: lagswap = true); the other classes have no lags and ignore the parameter *)
+Definition orient_lag_of (c : cls) : pstate -> dir -> outcome :=
+  match c with
+  | CPag | CAugPag => orient_pag true | CCpdag => orient_cpdag true
+  | CTsPag => orient_tspag true | CTsCpdag => orient_tscpdag true
   end.
 
 (* edge types a class has layers for *)
@@ -98,7 +107,8 @@ Inductive op :=
 | RemoveEdge (u v : nat) (et : etype)
 | RemoveEdges (es : list (nat * nat)) (et : etype)
 | Orient (u v : nat)
-| Construct (dl ul bl cl : list (nat * nat)).
+| Construct (dl ul bl cl : list (nat * nat))
+| OrientLag (u v : nat).      (* orient_uncertain_edge(u, v) where u is LATER in time than v *)
 
 (* one guarded insertion; None = raises *)
 Definition add1 (c : cls) (et : etype) (st : pairmap) (e : nat * nat) : option pairmap :=
@@ -151,6 +161,10 @@ Definition step (c : cls) (st : pairmap) (o : op) : pairmap * bool :=
       let r := orient_of c (get st k) d in (set st k (fst r), snd r)
   | Construct dl ul bl cl =>
       let st' := build c dl ul bl cl in if mec_ok c st' then (st', false) else (st, true)
+  | OrientLag u v =>
+      if Nat.eqb u v then (st, true) else
+      let (k, d) := canon u v in
+      let r := orient_lag_of c (get st k) d in (set st k (fst r), snd r)
   end.
 
 Definition run (c : cls) (ops : list op) (st : pairmap) : pairmap := fold_left (fun st o => fst (step c st o)) ops st.
@@ -179,7 +193,8 @@ Definition op_of_sx (s : sx) : op :=
   | 2 => RemoveEdge (sx_nat (sx_nth s 1)) (sx_nat (sx_nth s 2)) (et_of_nat (sx_nat (sx_nth s 3)))
   | 3 => RemoveEdges (sx_pairs (sx_nth s 1)) (et_of_nat (sx_nat (sx_nth s 2)))
   | 4 => Orient (sx_nat (sx_nth s 1)) (sx_nat (sx_nth s 2))
-  | _ => Construct (sx_pairs (sx_nth s 1)) (sx_pairs (sx_nth s 2)) (sx_pairs (sx_nth s 3)) (sx_pairs (sx_nth s 4))
+  | 5 => Construct (sx_pairs (sx_nth s 1)) (sx_pairs (sx_nth s 2)) (sx_pairs (sx_nth s 3)) (sx_pairs (sx_nth s 4))
+  | _ => OrientLag (sx_nat (sx_nth s 1)) (sx_nat (sx_nth s 2))
   end.
 
 Definition observe (c : cls) (st : pairmap) (raised : bool) : sx :=
